@@ -32,7 +32,7 @@ SCENARIOS = {
     # safe today: the concurrent thread's own load step re-merges the registered default before it decides
     'registered_default_permissive': dict(regs=[('foo', '!'), ('x', 'role:a')], main_old={'default': '@', 'x': 'role:a'},
                                           main_new={'default': '@', 'x': 'role:b'}, dir_old={'y': '!'}, dir_new={'y': '!'},
-                                          query='foo'),
+                                          query='foo', also_request=['y']),
     # the same without any file in policy.d: nothing after the main-file swap touches the rule store except the
     # re-application of the registered defaults (safe today for the same reason)
     'registered_default_no_dir_files': dict(regs=[('foo', '!'), ('x', 'role:a'), ('bar', 'role:zz')],
@@ -55,7 +55,7 @@ SCENARIOS = {
                              dir_old={'y': '!'}, dir_new={'y': '!'}, query='both', no_model=True),
     'deprecated_defaults': dict(regs=[('np', 'role:zz', ('op', 'role:zz')), ('x', 'role:a')], main_old={'x': 'role:a'},
                                 main_new={'x': 'role:b'}, dir_old={'op': 'role:a'}, dir_new={'op': 'role:a'}, query='np',
-                                expect_same=True),
+                                expect_same=True, also_request=['op']),
 }
 
 
@@ -119,22 +119,36 @@ def one(sc, segments):
 
 
 def _explore(arg):
-    """All schedules of one scenario: [(segments, outcomes, old, new, final, pauses)]."""
+    """All schedules of one scenario: [(segments, outcomes, old, new, final, pauses, query)].
+
+    The property quantifies over schedules with one or two context switches: A then B (one), and "A runs k lines, B runs
+    its whole call, A finishes" for every k (two; B-first is the same by symmetry). Those are explored exhaustively in both
+    tiers. `thorough` adds (a) the same for every other policy name of the scenario as the request, and (b) a grid of
+    THREE-switch schedules (A k lines, B j lines, A finishes, B finishes), which lie beyond the quantifier and are
+    reported separately."""
     name, thorough = arg
-    sc = SCENARIOS[name]
-    outs, old, new, final, counts, _ = one(sc, [(0, None), (1, None)])     # sequential: A then B
-    nlines = counts[0]
-    scheds = [[(0, k), (1, None), (0, None)] for k in range(1, nlines + 1)]
-    if thorough or name == 'alias_evaluation':
-        # two context switches (quick: a coarser grid on one scenario, enough to meet the iteration finding F10-iteration)
-        step = max(1, nlines // (40 if thorough else 20))
-        for k in range(1, nlines + 1, step):
-            for j in range(1, nlines + 1, step):
-                scheds.append([(0, k), (1, j), (0, None), (1, None)])
+    base = SCENARIOS[name]
+    queries = [base['query']] + list(base.get('also_request', []))
+    if thorough:
+        names = [r[0] for r in base['regs']] + list(base['main_old']) + list(base['main_new']) + \
+            list(base['dir_old'] or {}) + list(base['dir_new'] or {}) + ['undefined_name']
+        queries += [n for n in dict.fromkeys(names) if n not in queries and n != 'default']
     res = []
-    for segs in scheds:
-        outs, old, new, final, counts, pauses = one(sc, segs)
-        res.append((segs, outs, old, new, final, pauses))
+    for q in queries:
+        sc = dict(base, query=q)
+        outs, old, new, final, counts, _ = one(sc, [(0, None), (1, None)])     # sequential: A then B
+        res.append(([(0, None), (1, None)], outs, old, new, final, [], q))
+        nlines = counts[0]
+        scheds = [[(0, k), (1, None), (0, None)] for k in range(1, nlines + 1)]
+        if thorough and q == base['query']:
+            step = max(1, nlines // 40)
+            for k in range(1, nlines + 1, step):
+                for j in range(1, nlines + 1, step):
+                    scheds.append([(0, k), (1, j), (0, None), (1, None)])
+        for segs in scheds:
+            nseg = len(segs)
+            outs, old, new, final, counts, pauses = one(sc, segs)
+            res.append((segs if nseg == 3 else segs + ['beyond'], outs, old, new, final, pauses, q))
     return res
 
 
@@ -142,6 +156,8 @@ def run(ctx, rep):
     total_sched = 0
     model_reqs = []
     observed = {}
+    import collections
+    beyond_q = collections.Counter()
     # the scenarios are independent: explore them in parallel processes (each schedule is still strictly sequential
     # inside its process: exactly one of the two threads is runnable at any time)
     import concurrent.futures
@@ -149,8 +165,9 @@ def run(ctx, rep):
         explored = dict(zip(SCENARIOS, ex.map(_explore, [(n, ctx.thorough) for n in SCENARIOS])))
     for name, sc in SCENARIOS.items():
         seen = set()
-        for segs, outs, old, new, final, pauses in explored[name]:
+        for segs, outs, old, new, final, pauses, query in explored[name]:
             total_sched += 1
+            beyond = segs[-1] == 'beyond'
             # a thread is the "reloader" if it was preempted inside load_rules, else a "bystander" (it ran its own
             # load step without interruption); the window is open if any thread was preempted inside load_rules
             in_load = any('load_rules' in p[1] for p in pauses)
@@ -160,18 +177,27 @@ def run(ctx, rep):
                     role[p[0]] = 'reloader'
             where = pauses[0][1][-1] if pauses and pauses[0][1] else '-'
             for tid, o in enumerate(outs):
-                seen.add(o)
+                if query == sc['query'] and not beyond and len(segs) == 3:
+                    seen.add(o)
                 if o not in (old, new):
-                    rep.fail('c20:%s|thread=%s|paused_in_load_rules=%s|decision=%s'
-                             % (name, role.get(tid, 'bystander'), in_load, o),
-                             'scenario %s: old policy decides %s, new policy decides %s, but thread %s decided %s when thread A '
-                             'was preempted after %d line(s) inside %s (stack %s)'
-                             % (name, old, new, 'AB'[tid], o, segs[0][1], where, pauses[0][1] if pauses else []),
-                             {'scenario': name, 'segments': segs, 'old': old, 'new': new, 'outcomes': outs})
-            if final != new:
-                rep.fail('c20final:%s|paused_in_load_rules=%s' % (name, in_load),
-                         'scenario %s: after both threads finished the enforcer decides %s, a fresh one decides %s (schedule %r)'
-                         % (name, final, new, segs), {'scenario': name, 'segments': segs})
+                    label = name if query == sc['query'] else '%s/request=%s' % (name, query)
+                    key = 'c20:%s|thread=%s|paused_in_load_rules=%s|decision=%s' % (label, role.get(tid, 'bystander'), in_load, o)
+                    if beyond:
+                        beyond_q[key.replace('c20:', 'c20-3switch:')] += 1      # three context switches: outside the quantifier
+                        continue
+                    rep.fail(key,
+                             'scenario %s (request %s): old policy decides %s, new policy decides %s, but thread %s decided %s when '
+                             'thread A was preempted after %s line(s) inside %s (stack %s)'
+                             % (name, query, old, new, 'AB'[tid], o, segs[0][1], where, pauses[0][1] if pauses else []),
+                             {'scenario': name, 'query': query, 'segments': segs, 'old': old, 'new': new, 'outcomes': outs})
+            if final != new and not beyond:
+                rep.fail('c20final:%s|paused_in_load_rules=%s' % (name if query == sc['query'] else '%s/request=%s' % (name, query), in_load),
+                         'scenario %s (request %s): after both threads finished the enforcer decides %s, a fresh one decides %s '
+                         '(schedule %r)' % (name, query, final, new, segs), {'scenario': name, 'query': query, 'segments': segs})
+            if query != sc['query'] or beyond:
+                rep.stat('sched_extra:%s' % ('three_switches' if beyond else 'other_request'))
+                rep.case(key='%s|%s|%r' % (name, query, segs), nontrivial=True)
+                continue
             rep.stat('sched:%s' % name)
             rep.case(key='%s|%r' % (name, segs), nontrivial=True,
                      sample={'scenario': name, 'segments': segs, 'outcomes': outs, 'old': old, 'new': new,
@@ -181,7 +207,10 @@ def run(ctx, rep):
                      'permissive default rule with the rule in policy.d / as a registered default, deprecated defaults) thread A is preempted after every source line k inside the '
                      'library, thread B runs its whole enforce call, A resumes%s; both threads\' decisions are compared with '
                      'the decision under the complete old and the complete new policy, and the final state with a fresh enforcer'
-                     % (total_sched, len(SCENARIOS), '; plus a grid of two-switch schedules' if ctx.thorough else ''))
+                     % (total_sched, len(SCENARIOS), '; plus the same with every other policy name of the scenario as the request, and '
+                        '(reported separately, beyond the quantifier) a grid of three-switch schedules' if ctx.thorough else ''))
+    if beyond_q:
+        rep.extra['beyond_the_quantifier_three_context_switches'] = dict(beyond_q)
     # correspondence with the Lean small-step model: the set of decisions obtainable over all one-switch schedules
     reqs, names = [], []
     for name, sc in SCENARIOS.items():
